@@ -175,7 +175,9 @@ ActionClauses(e) ==
          (* C15: after an accepted renumbering with a positive step the top-level numbers are distinct and ascending,
             so sorting any permutation of the items restores this order *)
          \o (IF p.ok /\ e.exc = "" /\ e.s # <<0, 0>> /\ e.d # <<0, 0>>
-             THEN Chk(TopSeqsDistinct(o.items) /\ SortedBySeq(o.items), e, "C15.renumbered-items-would-not-sort-back-into-this-order")
+             THEN Chk(TopSeqsDistinct(o.items) /\ SortedBySeq(o.items)
+                      /\ \A k \in 1..(Len(Seqs(o.items)) - 1) : R!LtL(Seqs(o.items)[k], Seqs(o.items)[k + 1]),       \* also inside the blocks
+                      e, "C15.renumbered-items-would-not-sort-back-into-this-order")
              ELSE <<>>)
     [] e.act = "Group" ->
          Chk(e.exc = "", e, "C15.group-raised")
